@@ -129,6 +129,24 @@ def scenarios(rnd, quick, only_inbound=False):
             p = rnd.choice(partitions(rnd, total, [len(m) for m in msgs], 3, False))
             cs.append(dict(sent=[list(m) for m in msgs], chunks=p, out=rnd.choice([0, 4])))
         scns.append(dict(id="m%d" % si, role="acceptor", buf=rnd.choice([0, 1, 10]), senders=rnd.choice([1, 3]), conns=cs))
+    # a connection that dies in the middle of a message (EOF or reset after at least one complete field of it), then further
+    # connections on the same acceptor: each handler still gets exactly what ITS peer sent
+    for si in range(24 if quick else 300):
+        cs = []
+        nconn = rnd.randint(2, 4)
+        for c in range(nconn):
+            msgs = [gen_msg(rnd) for _ in range(rnd.randint(0 if c < nconn - 1 else 1, 3))]
+            total = sum(len(m) for m in msgs)
+            d = dict(sent=[list(m) for m in msgs], out=0)
+            if c < nconn - 1 and rnd.random() < 0.8:
+                nxt = gen_msg(rnd)
+                cutpos = rnd.choice([rnd.randint(12, max(13, len(nxt) - 8)), len(nxt) - 7, len(nxt) - 4, len(nxt) - 1, nxt.find(b"\x0135=") + 6])
+                d["tail"] = list(nxt[:max(1, cutpos)])
+                d["dies"] = rnd.choice(["eof", "reset"])
+                total += len(d["tail"])
+            d["chunks"] = rnd.choice(partitions(rnd, total, [len(m) for m in msgs], 3, False)) if total > 1 else [max(total, 1)]
+            cs.append(d)
+        scns.append(dict(id="D%d" % si, role="acceptor", buf=rnd.choice([0, 1, 10]), senders=1, conns=cs))
     if only_inbound:
         for s_ in scns:
             for c in s_["conns"]:
@@ -138,6 +156,9 @@ def scenarios(rnd, quick, only_inbound=False):
 
 def finish_check(run, prop, scns, traces):
     rejects = sc.validate(run, traces, module="FramingTrace", mods=["Framing.tla", "FramingTrace.tla"])
+    # the whole library end to end over TCP: what each handler was given against what the proxy passed on
+    import stack_checks
+    rejects += stack_checks.check(run, run.tier == "quick", run.seed)
     viol, kn = classify(prop, [r for r in rejects if r[0] == prop])
     run.add_known(kn)
     seen = set()
@@ -145,14 +166,16 @@ def finish_check(run, prop, scns, traces):
         if r[2] in seen or len(run.violations) >= 10:
             continue
         seen.add(r[2])
-        run.violation(r, {"property": prop, "kind": "framing", "reject": r, "scenario": sc.find_scenario(scns, r[1].split("/")[0])})
+        run.violation(r, stack_checks.replay_obj(prop, r) or
+                      {"property": prop, "kind": "framing", "reject": r, "scenario": sc.find_scenario(scns, r[1].split("/")[0])})
     if len(viol) > len(run.violations):
         run.notes.append("%d rejected connection records in total" % len(viol))
     run.samples = [{"scenario": s["id"], "role": s["role"], "buf": s["buf"], "chunks": s["conns"][0]["chunks"][:12],
                     "first_message": bytes(s["conns"][0]["sent"][0]).decode("latin1").replace("\x01", "|")} for s in scns[:3]]
     run.assumptions = ["the transport is a scripted in-memory net.Conn: Read returns exactly the chunks of the partition, then blocks until closed",
                        "real-time executor with bounded waits (2 s) for delivery; a timeout shows up as missing deliveries",
-                       "outbound messages are handed to DefaultHandler.Send by 1..4 goroutines; hand-off order is observed by an outgoing handler under the handler lock"]
+                       "outbound messages are handed to DefaultHandler.Send by 1..4 goroutines; hand-off order is observed by an outgoing handler under the handler lock",
+                       stack_checks.ASSUMPTION]
     return run.finish("scenario = 1..3 connections x messages (values containing '10=', tags 110/210/1010) x a partition of the byte stream into read "
                       "chunks (whole, one byte per read, every single cut position for the first streams, cuts around message ends and inside the "
                       "CheckSum tag, random multi-cuts) x buffer size 0/1/10 x role; one record per connection validated by FramingTrace")
